@@ -1,3 +1,476 @@
-/- Props/C10 — placeholder while the harness is being explored (no theorem yet) -/
+/-
+  Props/C10 — positioning tasks of a roller shutter stop at the first accounting callback at or after the
+  target and then finish; a motor that makes no progress is switched off by the 10-minute limit.
+-/
+import SuplaVerif.Model.RsTask
+import SuplaVerif.Props.C09
 namespace SuplaVerif.C10
+open SuplaVerif
+
+/-! ### the 10-minute limit -/
+
+/-- regime of a plain move down with no closing time configured (nothing converts run time into position):
+    no task, no pending trigger, and — while the output is on — the reporting block has not run since the
+    run time passed 600 s -/
+def Plain (s : RsT) : Prop :=
+  s.tstate = 0 ∧ s.pend = 0 ∧ (s.rel = 0 ∨ s.rel = 1) ∧ s.comm < 200000 ∧
+  (s.rel = 1 → s.downT > 600000000 → s.downT ≤ 600000000 + s.comm)
+
+theorem movePos_nofull (up : Bool) (m : Mv) :
+    movePos { fullMs := 0, tiltMs := 0, ttype := 0, up := up } m = m := by
+  unfold movePos; simp
+
+theorem plain_tick (P : RsP) (hfc : P.fc = 0) (s : RsT) (dt : Nat) (h : Plain s) :
+    Plain (rsTick P s dt) ∧
+    ((rsTick P s dt).rel = 1 → s.rel = 1 ∧ (rsTick P s dt).downT = s.downT + dt) := by
+  obtain ⟨hts, hpend, hne2, hc, hJ⟩ := h
+  by_cases hrel : s.rel = 1
+  · -- output on: run time accumulates, the reporting block may switch it off
+    have hacc : account P s dt = { s with downT := s.downT + dt, upT := 0 } := by
+      unfold account
+      rw [if_neg (by omega), if_pos hrel]
+      simp only [hfc, calibrateStep, movePos_nofull]
+      simp [hrel]
+    have htask : taskStep P (account P s dt) = account P s dt := by
+      unfold taskStep; rw [hacc]; simp [hts]
+    unfold rsTick; rw [htask, hacc]
+    unfold commStep
+    simp only
+    by_cases hfire : s.comm + dt ≥ 200000
+    · rw [if_pos hfire]
+      by_cases hex : (0 > 600000000 ∨ s.downT + dt > 600000000)
+      · rw [if_pos hex]
+        refine ⟨⟨by simp [relOff, hts], by simp [relOff], by simp [relOff], by simp [relOff], by simp [relOff]⟩, ?_⟩
+        intro h1; simp [relOff] at h1
+      · rw [if_neg hex]
+        refine ⟨⟨by simpa using hts, by simpa using hpend, by simp [hrel], by simp, ?_⟩, by intro _; exact ⟨hrel, rfl⟩⟩
+        intro _ h2; simp only at h2; omega
+    · rw [if_neg hfire]
+      refine ⟨⟨by simpa using hts, by simpa using hpend, by simp [hrel], by simp; omega, ?_⟩, by intro _; exact ⟨hrel, rfl⟩⟩
+      intro _ h2
+      simp only at h2 ⊢
+      have := hJ hrel
+      by_cases hprev : s.downT > 600000000
+      · have := this hprev; omega
+      · omega
+  · -- output off: nothing switches it on
+    have hrel0 : s.rel = 0 := by rcases hne2 with h | h; exact h; exact absurd h hrel
+    have hacc : account P s dt = { s with upT := 0, downT := 0, sinceStop := s.sinceStop + dt } := by
+      unfold account; rw [if_neg (by omega), if_neg (by omega)]
+    have htask : taskStep P (account P s dt) = account P s dt := by
+      unfold taskStep; rw [hacc]; simp [hts]
+    unfold rsTick; rw [htask, hacc]
+    unfold commStep
+    simp only
+    by_cases hfire : s.comm + dt ≥ 200000
+    · rw [if_pos hfire, if_neg (by omega)]
+      exact ⟨⟨by simpa using hts, by simpa using hpend, by simp [hrel0], by simp, by simp [hrel0]⟩, by simp [hrel0]⟩
+    · rw [if_neg hfire]
+      exact ⟨⟨by simpa using hts, by simpa using hpend, by simp [hrel0], by simp; omega, by simp [hrel0]⟩, by simp [hrel0]⟩
+
+theorem plain_run (P : RsP) (hfc : P.fc = 0) : ∀ (dts : List Nat) (s : RsT), Plain s →
+    Plain (rsRun P s dts) ∧
+    ((rsRun P s dts).rel = 1 → s.rel = 1 ∧ (rsRun P s dts).downT = s.downT + C09.sum dts) := by
+  intro dts
+  induction dts with
+  | nil => intro s h; exact ⟨h, by intro h1; exact ⟨h1, by simp [rsRun, C09.sum]⟩⟩
+  | cons dt dts ih =>
+    intro s h
+    unfold rsRun
+    have t := plain_tick P hfc s dt h
+    have r := ih (rsTick P s dt) t.1
+    refine ⟨r.1, ?_⟩
+    intro h1
+    have r2 := r.2 h1
+    have t2 := t.2 r2.1
+    exact ⟨t2.1, by rw [r2.2, t2.2]; simp [C09.sum]; omega⟩
+
+/-- C10 (power limit): a shutter driven down by a plain command while no closing time is configured (nothing
+    turns run time into position: not calibrated, times discarded) — for every sequence of accounting
+    callbacks, if the output is still on then the run time so far is below 600.2 s; so the output is off at
+    the first callback at which 600 s + one reporting period have passed -/
+theorem c10_power_limit (P : RsP) (hfc : P.fc = 0) (s : RsT) (dts : List Nat)
+    (h0 : s.rel = 1 ∧ s.downT = 0 ∧ s.tstate = 0 ∧ s.pend = 0 ∧ s.comm < 200000) :
+    (rsRun P s dts).rel = 1 → C09.sum dts < 600200000 := by
+  intro h1
+  have hp : Plain s := ⟨h0.2.2.1, h0.2.2.2.1, Or.inr h0.1, h0.2.2.2.2, by intro _ h; omega⟩
+  have r := plain_run P hfc dts s hp
+  have e := (r.2 h1).2
+  obtain ⟨_, _, _, hc, hJ⟩ := r.1
+  have := hJ h1
+  by_cases hx : (rsRun P s dts).downT > 600000000
+  · have := this hx; omega
+  · omega
+
+theorem c10_power_limit_off (P : RsP) (hfc : P.fc = 0) (s : RsT) (dts : List Nat)
+    (h0 : s.rel = 1 ∧ s.downT = 0 ∧ s.tstate = 0 ∧ s.pend = 0 ∧ s.comm < 200000)
+    (hT : 600200000 ≤ C09.sum dts) : (rsRun P s dts).rel = 0 := by
+  have hp : Plain s := ⟨h0.2.2.1, h0.2.2.2.1, Or.inr h0.1, h0.2.2.2.2, by intro _ h; omega⟩
+  have r := plain_run P hfc dts s hp
+  rcases r.1.2.2.1 with h | h
+  · exact h
+  · have := c10_power_limit P hfc s dts h0 h; omega
+
+/-! ### a positioning task: moving down towards the target -/
+
+/-- the shutter is executing a task downwards -/
+def Mov (s : RsT) : Prop :=
+  s.tstate = 2 ∧ s.dir = 1 ∧ s.rel = 1 ∧ s.pend = 0 ∧ 100 ≤ s.pos ∧ s.pos ≤ 10100
+
+/-- the task has switched the motor off (it finishes at the next callback) or has finished -/
+def Stopped (s : RsT) : Prop :=
+  s.rel = 0 ∧ s.pend = 0 ∧ 100 ≤ s.pos ∧ s.pos ≤ 10100 ∧ (s.tstate = 0 ∨ (s.tstate = 2 ∧ s.dir = 0))
+
+theorem known_of (p : Nat) (h : 100 ≤ p ∧ p ≤ 10100) : known p = true := by
+  unfold known; simp; omega
+
+theorem account_mov (P : RsP) (s : RsT) (dt : Nat) (h : Mov s) :
+    account P s dt =
+      { s with pos := (mvTick (C09.rsCfg P.fc false) { pos := s.pos, tilt := 0, time := s.downT } dt).pos,
+               downT := (mvTick (C09.rsCfg P.fc false) { pos := s.pos, tilt := 0, time := s.downT } dt).time,
+               upT := 0 } := by
+  obtain ⟨hts, _, hrel, _, hlo, hhi⟩ := h
+  unfold account
+  rw [if_neg (by omega), if_pos hrel]
+  have hk : known s.pos = true := known_of s.pos ⟨hlo, hhi⟩
+  simp only [calibrateStep, hk, Bool.not_true, Bool.false_and, Bool.false_eq_true, if_false]
+  simp [hts, hrel, mvTick, C09.rsCfg]
+
+/-- stop at the target: the first callback at which the estimated position is at or beyond the target (and
+    not inside the end-stop margin) switches the motor off -/
+theorem task_reached_stops (P : RsP) (s : RsT) (h : Mov s) (htp : 0 < s.target)
+    (hreach : s.pos - 100 ≥ s.target * 100)
+    (hnm : ¬ (s.pos - 100 = 10000 ∧ inMargin P.fc s.downT (taskMargin P) = true)) :
+    (taskStep P s).rel = 0 ∧ (taskStep P s).tstate = 2 ∧ (taskStep P s).dir = 0 ∧ (taskStep P s).pos = s.pos ∧
+    (taskStep P s).pend = 0 := by
+  obtain ⟨hts, hdir, hrel, hpend, hlo, hhi⟩ := h
+  have hk : known s.pos = true := known_of s.pos ⟨hlo, hhi⟩
+  unfold taskStep
+  rw [if_neg (by omega)]
+  simp only [hk, Bool.not_true, Bool.false_eq_true, if_false]
+  have e1 : ¬ (s.tstate = 1) := by omega
+  simp only [e1, if_false]
+  have e2 : ¬ (s.tstate = 2 ∧ s.dir = 0) := by omega
+  simp only [e2, if_false]
+  have e3 : s.tstate = 2 ∧ ((s.dir = 2 ∧ s.pos - 100 ≤ s.target * 100) ∨ (s.dir = 1 ∧ s.pos - 100 ≥ s.target * 100)) :=
+    ⟨hts, Or.inr ⟨hdir, hreach⟩⟩
+  rw [if_pos e3]
+  have e4 : ¬ (s.pos - 100 = 0 ∧ inMargin P.fo s.upT (taskMargin P) = true) := by
+    intro hh; omega
+  rw [if_neg e4, if_neg hnm]
+  simp [relOff, hts]
+
+/-- before the target nothing changes: the motor keeps running -/
+theorem task_not_reached_runs (P : RsP) (s : RsT) (h : Mov s) (hb : s.pos - 100 < s.target * 100) :
+    taskStep P s = s := by
+  obtain ⟨hts, hdir, hrel, hpend, hlo, hhi⟩ := h
+  have hk : known s.pos = true := known_of s.pos ⟨hlo, hhi⟩
+  unfold taskStep
+  rw [if_neg (by omega)]
+  simp only [hk, Bool.not_true, Bool.false_eq_true, if_false]
+  have e1 : ¬ (s.tstate = 1) := by omega
+  simp only [e1, if_false]
+  have e2 : ¬ (s.tstate = 2 ∧ s.dir = 0) := by omega
+  simp only [e2, if_false]
+  have e3 : ¬ (s.tstate = 2 ∧ ((s.dir = 2 ∧ s.pos - 100 ≤ s.target * 100) ∨ (s.dir = 1 ∧ s.pos - 100 ≥ s.target * 100))) := by
+    intro hh; rcases hh.2 with h2 | h1
+    · omega
+    · omega
+  rw [if_neg e3]
+
+/-- after the stop the task finishes at the next callback and nothing moves any more -/
+theorem task_finishes (P : RsP) (s : RsT) (dt : Nat) (h : Stopped s) :
+    Stopped (rsTick P s dt) ∧ (rsTick P s dt).tstate = 0 ∧ (rsTick P s dt).pos = s.pos := by
+  obtain ⟨hrel, hpend, hlo, hhi, hst⟩ := h
+  have hk : known s.pos = true := known_of s.pos ⟨hlo, hhi⟩
+  have hacc : account P s dt = { s with upT := 0, downT := 0, sinceStop := s.sinceStop + dt } := by
+    unfold account; rw [if_neg (by omega), if_neg (by omega)]
+  unfold rsTick; rw [hacc]
+  rcases hst with h0 | ⟨h2, hd⟩
+  · have htask : taskStep P { s with upT := 0, downT := 0, sinceStop := s.sinceStop + dt } =
+        { s with upT := 0, downT := 0, sinceStop := s.sinceStop + dt } := by
+      unfold taskStep; simp [h0]
+    rw [htask]; unfold commStep; simp only
+    by_cases hf : s.comm + dt ≥ 200000
+    · rw [if_pos hf, if_neg (by omega)]
+      exact ⟨⟨hrel, hpend, hlo, hhi, Or.inl h0⟩, h0, rfl⟩
+    · rw [if_neg hf]
+      exact ⟨⟨hrel, hpend, hlo, hhi, Or.inl h0⟩, h0, rfl⟩
+  · have htask : taskStep P { s with upT := 0, downT := 0, sinceStop := s.sinceStop + dt } =
+        relOff { s with upT := 0, downT := 0, sinceStop := s.sinceStop + dt, tstate := 0, dir := 0 } := by
+      unfold taskStep
+      simp only [h2, hk, hd]
+      simp [relOff]
+    rw [htask]; unfold commStep; simp only [relOff]
+    by_cases hf : s.comm + dt ≥ 200000
+    · rw [if_pos hf, if_neg (by simp)]
+      exact ⟨⟨by simp, by simp, hlo, hhi, Or.inl (by simp)⟩, by simp, by simp⟩
+    · rw [if_neg hf]
+      exact ⟨⟨by simp, by simp, hlo, hhi, Or.inl (by simp)⟩, by simp, by simp⟩
+
+/-- Ψ of the task model: estimated position × full time + 10⁴ × carried run time -/
+def psi (P : RsP) (s : RsT) : Nat := s.pos * (P.fc * 1000) + 10000 * s.downT
+
+/-- loose bound on the carried time while a downward task is running: below the end stop less than one
+    position unit, at the end stop less than the task's margin -/
+def CarryOk (P : RsP) (s : RsT) : Prop :=
+  10000 * s.downT < P.fc * 1000 + 10000 + 100000 * P.fc * (taskMargin P + 1)
+
+theorem inMargin_bound (fc t m : Nat) (h : inMargin fc t m = true) : t < 10 * fc * m + 10 := by
+  unfold inMargin at h
+  simp only [Bool.and_eq_true, decide_eq_true_eq] at h
+  obtain ⟨hf, hlt⟩ := h
+  have h1 : t / 10 < m * fc := (Nat.div_lt_iff_lt_mul hf).mp hlt
+  have h2 : t < (m * fc) * 10 := (Nat.div_lt_iff_lt_mul (by decide : 0 < 10)).mp h1
+  have e : (m * fc) * 10 = 10 * fc * m := by
+    rw [Nat.mul_comm (m * fc) 10, Nat.mul_comm m fc, Nat.mul_assoc]
+  omega
+
+theorem commStep_keep (s : RsT) (dt : Nat) (hu : s.upT ≤ 600000000) (hd : s.downT ≤ 600000000) :
+    (commStep s dt).rel = s.rel ∧ (commStep s dt).tstate = s.tstate ∧ (commStep s dt).dir = s.dir ∧
+    (commStep s dt).pend = s.pend ∧ (commStep s dt).pos = s.pos ∧ (commStep s dt).downT = s.downT ∧
+    (commStep s dt).target = s.target ∧ (commStep s dt).upT = s.upT := by
+  unfold commStep
+  by_cases hf : s.comm + dt ≥ 200000
+  · rw [if_pos hf, if_neg (by omega)]; simp
+  · rw [if_neg hf]; simp
+
+theorem commStep_off (s : RsT) (dt : Nat) (hr : s.rel = 0) (hp : s.pend = 0) :
+    (commStep s dt).rel = 0 ∧ (commStep s dt).tstate = s.tstate ∧ (commStep s dt).dir = s.dir ∧
+    (commStep s dt).pend = 0 ∧ (commStep s dt).pos = s.pos ∧ (commStep s dt).target = s.target := by
+  unfold commStep
+  by_cases hf : s.comm + dt ≥ 200000
+  · rw [if_pos hf]
+    by_cases hx : s.upT > 600000000 ∨ s.downT > 600000000
+    · rw [if_pos hx]; simp [relOff, hr]
+    · rw [if_neg hx]; simp [hr, hp]
+  · rw [if_neg hf]; simp [hr, hp]
+
+/-- one accounting callback of a running downward task: either the motor has been switched off at or beyond
+    the target, or the task keeps running and Ψ has grown by at least 10⁴·dt -/
+theorem mov_tick (P : RsP) (hfc : 10 ≤ P.fc)
+    (hcap : P.fc / 10 + 1 + 10 * P.fc * (taskMargin P + 1) ≤ 600000000)
+    (s : RsT) (dt : Nat) (h : Mov s) (htp : 0 < s.target) (htg100 : s.target ≤ 100) :
+    let s' := rsTick P s dt
+    s'.target = s.target ∧
+    ((Stopped s' ∧ s'.pos - 100 ≥ s.target * 100 ∧
+        (s'.pos - s.pos) * (P.fc * 1000) ≤ 10000 * s.downT + 10000 * dt + 10000 ∧ s.pos ≤ s'.pos) ∨
+     (Mov s' ∧ CarryOk P s' ∧ psi P s + 10000 * dt ≤ psi P s' ∧ s.pos ≤ s'.pos)) := by
+  intro s'
+  have hacc := account_mov P s dt h
+  obtain ⟨hts, hdir, hrel, hpend, hlo, hhi⟩ := h
+  have td := C09.tick_down P.fc hfc { pos := s.pos, tilt := 0, time := s.downT } dt ⟨hlo, hhi⟩
+  have hr := C09.c09_pos_range_mono (C09.rsCfg P.fc false) { pos := s.pos, tilt := 0, time := s.downT + dt } ⟨hlo, hhi⟩
+  simp only at td
+  generalize hm : mvTick (C09.rsCfg P.fc false) { pos := s.pos, tilt := 0, time := s.downT } dt = m at td hacc
+  have hmr : 100 ≤ m.pos ∧ m.pos ≤ 10100 ∧ s.pos ≤ m.pos := by
+    have : m = movePos (C09.rsCfg P.fc false) { pos := s.pos, tilt := 0, time := s.downT + dt } := by rw [← hm]; rfl
+    rw [this]; exact ⟨hr.1, hr.2.1, hr.2.2.2 rfl⟩
+  unfold C09.psiDown at td
+  simp only at td
+  -- the state after the accounting
+  have hMa : Mov (account P s dt) := by
+    rw [hacc]; exact ⟨hts, hdir, hrel, hpend, hmr.1, hmr.2.1⟩
+  have hs' : s' = commStep (taskStep P (account P s dt)) dt := rfl
+  by_cases hreach : m.pos - 100 ≥ s.target * 100
+  · by_cases hmg : (m.pos - 100 = 10000 ∧ inMargin P.fc m.time (taskMargin P) = true)
+    · -- inside the end-stop margin: keeps running
+      have htask : taskStep P (account P s dt) = account P s dt := by
+        have hk : known m.pos = true := known_of m.pos ⟨hmr.1, hmr.2.1⟩
+        rw [hacc]
+        unfold taskStep
+        rw [if_neg (by simp only; omega)]
+        simp only [hk, Bool.not_true, Bool.false_eq_true, if_false]
+        have e1 : ¬ (s.tstate = 1) := by omega
+        simp only [e1, if_false]
+        have e2 : ¬ (s.tstate = 2 ∧ s.dir = 0) := by omega
+        simp only [e2, if_false]
+        rw [if_pos ⟨hts, Or.inr ⟨hdir, hreach⟩⟩]
+        have e4 : ¬ (m.pos - 100 = 0 ∧ inMargin P.fo 0 (taskMargin P) = true) := by intro hh; omega
+        rw [if_neg e4, if_pos hmg]
+      have hb := inMargin_bound P.fc m.time (taskMargin P) hmg.2
+      have hk := commStep_keep (account P s dt) dt (by rw [hacc]; simp) (by
+        rw [hacc]; simp only
+        have : 10 * P.fc * taskMargin P + 10 * P.fc = 10 * P.fc * (taskMargin P + 1) := by rw [Nat.mul_add]; simp
+        omega)
+      rw [hs', htask]
+      refine ⟨by rw [hk.2.2.2.2.2.2.1, hacc], Or.inr ⟨?_, ?_, ?_, ?_⟩⟩
+      · obtain ⟨a1, a2, a3, a4, a5, a6, a7, a8⟩ := hk
+        unfold Mov; rw [a1, a2, a3, a4, a5]; exact hMa
+      · unfold CarryOk; rw [hk.2.2.2.2.2.1, hacc]; simp only
+        have e : 100000 * P.fc * (taskMargin P + 1) = 10000 * (10 * P.fc * (taskMargin P + 1)) := by
+          rw [← Nat.mul_assoc, ← Nat.mul_assoc]
+        have : 10 * P.fc * taskMargin P + 10 ≤ 10 * P.fc * (taskMargin P + 1) := by
+          rw [Nat.mul_add]; omega
+        omega
+      · unfold psi; rw [hk.2.2.2.2.1, hk.2.2.2.2.2.1, hacc]; simp only; omega
+      · rw [hk.2.2.2.2.1, hacc]; exact hmr.2.2
+    · -- reached: the motor is switched off
+      have hst := task_reached_stops P (account P s dt) hMa (by rw [hacc]; exact htp)
+        (by rw [hacc]; exact hreach) (by rw [hacc]; exact hmg)
+      obtain ⟨r1, r2, r3, r4, r5⟩ := hst
+      have hk := commStep_off (taskStep P (account P s dt)) dt r1 r5
+      obtain ⟨k1, k2, k3, k4, k5, k6⟩ := hk
+      have htg : (taskStep P (account P s dt)).target = s.target := by
+        have hk' : known m.pos = true := known_of m.pos ⟨hmr.1, hmr.2.1⟩
+        rw [hacc]; unfold taskStep
+        rw [if_neg (by simp only; omega)]
+        simp only [hk', Bool.not_true, Bool.false_eq_true, if_false]
+        have e1 : ¬ (s.tstate = 1) := by omega
+        simp only [e1, if_false]
+        have e2 : ¬ (s.tstate = 2 ∧ s.dir = 0) := by omega
+        simp only [e2, if_false]
+        split <;> (try split) <;> (try split) <;> simp [relOff]
+      have hpos : s'.pos = m.pos := by rw [hs', k5, r4, hacc]
+      rw [hs']
+      refine ⟨by rw [k6, htg], Or.inl ⟨⟨k1, k4, by rw [k5, r4, hacc]; exact hmr.1, by rw [k5, r4, hacc]; exact hmr.2.1,
+        Or.inr ⟨by rw [k2, r2], by rw [k3, r3]⟩⟩, ?_, ?_, ?_⟩⟩
+      · rw [k5, r4, hacc]; exact hreach
+      · rw [k5, r4, hacc]; simp only
+        have e : m.pos * (P.fc * 1000) = s.pos * (P.fc * 1000) + (m.pos - s.pos) * (P.fc * 1000) := by
+          rw [← Nat.add_mul]; congr 1; omega
+        have := td.2.1
+        omega
+      · rw [k5, r4, hacc]; exact hmr.2.2
+  · -- before the target: nothing but the bookkeeping happens
+    have hb : (account P s dt).pos - 100 < (account P s dt).target * 100 := by rw [hacc]; simp only; omega
+    have htask := task_not_reached_runs P (account P s dt) hMa hb
+    have hlt : m.pos < 10100 := by omega
+    have hcar := td.2.2 hlt
+    have hmt : m.time ≤ P.fc / 10 + 1 := by omega
+    have hk := commStep_keep (account P s dt) dt (by rw [hacc]; simp) (by
+      rw [hacc]; simp only
+      generalize 10 * P.fc * (taskMargin P + 1) = X at hcap
+      omega)
+    rw [hs', htask]
+    obtain ⟨a1, a2, a3, a4, a5, a6, a7, a8⟩ := hk
+    refine ⟨by rw [a7, hacc], Or.inr ⟨?_, ?_, ?_, ?_⟩⟩
+    · unfold Mov; rw [a1, a2, a3, a4, a5]; exact hMa
+    · unfold CarryOk; rw [a6, hacc]; simp only
+      exact Nat.lt_add_right _ hcar
+    · unfold psi; rw [a5, a6, hacc]; simp only; omega
+    · rw [a5, hacc]; exact hmr.2.2
+
+theorem stopped_run (P : RsP) : ∀ (dts : List Nat) (s : RsT), Stopped s →
+    Stopped (rsRun P s dts) ∧ (rsRun P s dts).pos = s.pos ∧ (dts ≠ [] → (rsRun P s dts).tstate = 0) := by
+  intro dts
+  induction dts with
+  | nil => intro s h; exact ⟨h, rfl, by intro hh; exact absurd rfl hh⟩
+  | cons dt dts ih =>
+    intro s h
+    unfold rsRun
+    have t := task_finishes P s dt h
+    have r := ih (rsTick P s dt) t.1
+    refine ⟨r.1, by rw [r.2.1, t.2.2], ?_⟩
+    intro _
+    cases dts with
+    | nil => simp only [rsRun]; exact t.2.1
+    | cons d2 ds => exact r.2.2 (by simp)
+
+/-- a running downward task over any sequence of accounting callbacks: it is either stopped at or beyond the
+    target (never moved back), or still running with Ψ grown by at least 10⁴ × the elapsed time -/
+theorem mov_run (P : RsP) (hfc : 10 ≤ P.fc)
+    (hcap : P.fc / 10 + 1 + 10 * P.fc * (taskMargin P + 1) ≤ 600000000) (tg : Nat) (htp : 0 < tg) (htg100 : tg ≤ 100) :
+    ∀ (dts : List Nat) (s : RsT), Mov s → s.target = tg →
+      (Stopped (rsRun P s dts) ∧ (rsRun P s dts).pos - 100 ≥ tg * 100 ∧ s.pos ≤ (rsRun P s dts).pos) ∨
+      (Mov (rsRun P s dts) ∧ CarryOk P (rsRun P s dts) ∧ (rsRun P s dts).target = tg ∧
+        psi P s + 10000 * C09.sum dts ≤ psi P (rsRun P s dts) ∧ s.pos ≤ (rsRun P s dts).pos ∨
+       (dts = [] ∧ Mov (rsRun P s dts))) := by
+  intro dts
+  induction dts with
+  | nil => intro s h _; right; right; exact ⟨rfl, h⟩
+  | cons dt dts ih =>
+    intro s h htg
+    unfold rsRun
+    have t := mov_tick P hfc hcap s dt h (by omega) (by omega)
+    simp only at t
+    obtain ⟨ttg, tcase⟩ := t
+    rcases tcase with ⟨hst, hpos, _, hmono⟩ | ⟨hmv, hcar, hpsi, hmono⟩
+    · have r := stopped_run P dts (rsTick P s dt) hst
+      left
+      exact ⟨r.1, by rw [r.2.1, htg] at *; exact hpos, by rw [r.2.1]; exact hmono⟩
+    · have r := ih (rsTick P s dt) hmv (by rw [ttg, htg])
+      rcases r with ⟨r1, r2, r3⟩ | ⟨r1, r2, r3, r4, r5⟩ | ⟨r1, r2⟩
+      · left; exact ⟨r1, r2, by omega⟩
+      · right; left
+        exact ⟨r1, r2, r3, by simp only [C09.sum]; omega, by omega⟩
+      · right; left
+        subst r1
+        simp only [rsRun] at r2 ⊢
+        exact ⟨hmv, hcar, by rw [ttg, htg], by simp [C09.sum]; omega, hmono⟩
+
+/-- C10 (convergence, downward): a roller shutter executing a positioning task towards a target below its
+    estimated position — for every sequence of accounting callbacks whose total duration reaches the travel to
+    the end stop plus the task's end-stop margin (Ψ-cap), the motor has been switched off with the estimate at or
+    beyond the target; it never moves back, and after one more callback the task is finished -/
+theorem c10_task_converges_down (P : RsP) (hfc : 10 ≤ P.fc)
+    (hcap : P.fc / 10 + 1 + 10 * P.fc * (taskMargin P + 1) ≤ 600000000) (s : RsT) (h : Mov s)
+    (htp : 0 < s.target) (htg100 : s.target ≤ 100) (dts : List Nat) (hne : dts ≠ [])
+    (hlong : 10100 * (P.fc * 1000) + P.fc * 1000 + 10000 + 100000 * P.fc * (taskMargin P + 1)
+               ≤ psi P s + 10000 * C09.sum dts) :
+    Stopped (rsRun P s dts) ∧ (rsRun P s dts).pos - 100 ≥ s.target * 100 ∧ s.pos ≤ (rsRun P s dts).pos := by
+  have r := mov_run P hfc hcap s.target htp htg100 dts s h rfl
+  rcases r with r | ⟨hm, hc, _, hpsi, _⟩ | ⟨he, _⟩
+  · exact r
+  · exfalso
+    obtain ⟨_, _, _, _, _, hhi⟩ := hm
+    unfold CarryOk at hc
+    unfold psi at hpsi hlong
+    have : (rsRun P s dts).pos * (P.fc * 1000) ≤ 10100 * (P.fc * 1000) := Nat.mul_le_mul_right _ hhi
+    generalize 100000 * P.fc * (taskMargin P + 1) = X at *
+    omega
+  · exact absurd he hne
+
+/-- the stop happens at the first callback at or beyond the target: the estimate passes the target by no more
+    than the travel of the carried time plus that callback interval (+1 unit) -/
+theorem c10_overshoot (P : RsP) (hfc : 10 ≤ P.fc)
+    (hcap : P.fc / 10 + 1 + 10 * P.fc * (taskMargin P + 1) ≤ 600000000) (s : RsT) (dt : Nat) (h : Mov s)
+    (htp : 0 < s.target) (htg100 : s.target ≤ 100) (hbefore : s.pos - 100 < s.target * 100)
+    (hst : Stopped (rsTick P s dt)) :
+    ((rsTick P s dt).pos - s.pos) * (P.fc * 1000) ≤ 10000 * s.downT + 10000 * dt + 10000 := by
+  have t := mov_tick P hfc hcap s dt h htp htg100
+  simp only at t
+  rcases t.2 with ⟨_, _, hb, _⟩ | ⟨hm, _⟩
+  · exact hb
+  · exfalso
+    obtain ⟨_, _, hrel, _⟩ := hm
+    obtain ⟨hrel0, _⟩ := hst
+    omega
+
+/-- from rest: the first callback after a task was added towards a target below the estimate starts the motor
+    downwards (unless a zero margin forbids driving a shutter that already reports 100 %) -/
+theorem task_start_down (P : RsP) (s : RsT) (dt : Nat)
+    (h0 : s.tstate = 1 ∧ s.rel = 0 ∧ s.pend = 0 ∧ 100 ≤ s.pos ∧ s.pos ≤ 10100 ∧ s.sinceStop ≥ 900000)
+    (hb : s.pos - 100 < s.target * 100) (hg : ¬ (P.margin = 0 ∧ reportedPos s.pos = 100)) :
+    Mov (rsTick P s dt) ∧ (rsTick P s dt).pos = s.pos ∧ (rsTick P s dt).downT = 0 ∧
+    (rsTick P s dt).target = s.target := by
+  obtain ⟨hts, hrel, hpend, hlo, hhi, hss⟩ := h0
+  have hk : known s.pos = true := known_of s.pos ⟨hlo, hhi⟩
+  have hacc : account P s dt = { s with upT := 0, downT := 0, sinceStop := s.sinceStop + dt } := by
+    unfold account; rw [if_neg (by omega), if_neg (by omega)]
+  have htask : taskStep P (account P s dt) =
+      { s with upT := 0, downT := 0, sinceStop := s.sinceStop + dt, tstate := 2, dir := 1, rel := 1, pend := 0 } := by
+    rw [hacc]
+    have e1 : ¬ (s.pos - 100 > s.target * 100) := by omega
+    have e3 : ¬ (s.sinceStop + dt < 900000) := by omega
+    have e4 : ¬ (P.margin = 0 ∧ reportedPos s.pos = 100) := hg
+    have e6 : ¬ (s.target * 100 ≤ s.pos - 100) := by omega
+    simp [taskStep, hts, hk, relReq, guardOn, hrel, hb, e1, e3, e4, e6]
+  unfold rsTick; rw [htask]
+  have hk2 := commStep_keep { s with upT := 0, downT := 0, sinceStop := s.sinceStop + dt, tstate := 2, dir := 1, rel := 1, pend := 0 } dt
+    (by simp) (by simp)
+  obtain ⟨a1, a2, a3, a4, a5, a6, a7, a8⟩ := hk2
+  exact ⟨⟨by rw [a2], by rw [a3], by rw [a1], by rw [a4], by rw [a5]; exact hlo, by rw [a5]; exact hhi⟩, by rw [a5], by rw [a6], by rw [a7]⟩
+
+/-- non-vacuity: 20 s closing time, default margin; from 20 % a task to 57 % driven by 0.5 s callbacks stops at
+    the first callback at or beyond 57 % (57.5 %) and is finished -/
+example :
+    (rsRun { fo := 20000, fc := 20000, margin := 110, inMove := false } (addTask { pos := 2100 } 57)
+      [10000, 500000, 500000, 500000, 500000, 500000, 500000, 500000, 500000, 500000, 500000, 500000, 500000, 500000, 500000,
+       500000, 10000, 10000]).pos = 5850 ∧
+    (rsRun { fo := 20000, fc := 20000, margin := 110, inMove := false } (addTask { pos := 2100 } 57)
+      [10000, 500000, 500000, 500000, 500000, 500000, 500000, 500000, 500000, 500000, 500000, 500000, 500000, 500000, 500000,
+       500000, 10000, 10000]).rel = 0 := by
+  set_option maxRecDepth 8000 in decide
+
 end SuplaVerif.C10
